@@ -36,7 +36,7 @@ MODULE = "TriompheModel.Props.C17"
 BATCH = 250      # query lines per harness process (bounds the allocator's record table)
 
 ASSUME = [
-    "payload universe of the correspondence = the harness's family (u8, u64, i32, bool, String, (u32,String), Vec<u16>, Option<u8>, a nested struct with hand-written impls); the theorems are for arbitrary payloads",
+    "payload universe of the correspondence = the harness's family (u8, u64, i32, bool, (), String, (u32,String), Vec<u16>, Option<u8>, a nested struct with hand-written impls); the theorems are for arbitrary payloads",
     "serializer/deserializer universe of the correspondence = one recording serializer implementing every serde::Serializer method and one replaying deserializer, both failing at a chosen k-th callback; the theorems are for arbitrary serializer states",
     "Part 2 of Model/Serde.lean (the call sequences serde 1.0's own impls for std types make) is a model of serde, not of triomphe; it is validated by the same correspondence (T's own log must match it)",
     "an Arc block is recognised by its layout Layout(usize).extend(Layout(T)).pad_to_align() (repr(C) ArcInner), the handle's block by heap_ptr()",
@@ -61,7 +61,7 @@ def fixed_payloads():
     ps += [["u8", str(v)] for v in (0, 7, 255)]
     ps += [["u64", str(v)] for v in (0, 1, 2 ** 63, 2 ** 64 - 1)]
     ps += [["i32", str(v)] for v in (-2 ** 31, -1, 0, 5, 2 ** 31 - 1)]
-    ps += [["bool", "true"], ["bool", "false"]]
+    ps += [["bool", "true"], ["bool", "false"], ["unit"]]
     ps += [["str", "=" + w] for w in WORDS[:4]]
     ps += [["pair", "0", "="], ["pair", "4294967295", "=xyz"], ["pair", "7", "=ab"]]
     ps += [["seq", str(len(x))] + [str(i) for i in x] for x in ([], [1], [1, 2, 3], [65535, 0, 9, 8, 7, 6, 5, 4])]
